@@ -43,10 +43,13 @@ CLAIMED["C10"] = ("other",
     "every other fopen is read-only; lha_arch_fopen unlinks then opens with O_CREAT|O_EXCL (no O_TRUNC) and wraps that descriptor, lha_arch_symlink unlinks first; "
     "a dangerous symlink of a normal entry becomes a placeholder, real creation of deferred links happens only after input and directory stack are exhausted, "
     "the deferred list stays in decreasing path-length order; the strings appended to the output path start at a byte != '/'; directory metadata is applied "
-    "only to directories whose mkdir succeeded in this run. These are necessary conditions of the property, decided for all archives and option sets at once. "
-    "Not decided: how the kernel resolves paths, crash-point interleavings, collapse_path's internals (C11).",
+    "only to directories whose mkdir succeeded in this run, and the link-following setters (utime/chmod/chown), called from any unit, only receive a path the same call created; "
+    "is_dangerous_symlink is decided against the component scanner (every path through one iteration of its loop either keeps the component open, or closes it under "
+    "branch facts that exclude '..', or reports; 'harmless' only at the NUL of a target not starting with '/'). These are necessary conditions of the property, decided for all "
+    "archives and option sets at once. One genuine defect is recorded as a known finding (R4d: a deferred link is created through directory components that may be links "
+    "re-created before it; replayed on the unchanged tree). Not decided: how the kernel resolves paths, crash-point interleavings.",
     "Trusted: clang 14 front end; LLVM sroa/early-cse; irx; the Python engines; indirect calls resolved by (struct, field) tables with type-based fallback; the libc mutator deny-list; Linux O_* values.",
-    "static analysis: whole-program call-graph reachability (who-may-call), available-facts dataflow and predicate path states on LLVM IR (custom checker)", "DESIGN.md §3 C10")
+    "static analysis: whole-program call-graph reachability (who-may-call), available-facts dataflow, predicate path states and per-iteration path conformance of the string scanner (E9 SCAN) on LLVM IR (custom checker)", "DESIGN.md §3 C10, §2 E9, §8 #10")
 CLAIMED["C15"] = ("other",
     "Static global-state and wiring analysis (claimed in part): every global and function-local static defined by lib/ is never the target of a store/copy and "
     "table struct types are never written through any pointer, lib/ calls no non-reentrant libc function - hence operations on one reader cannot affect another, "
@@ -99,13 +102,17 @@ CLAIMED["C11"] = ("other",
     "Static provenance and byte-map analysis (claimed in part): every value stored to the file-name field is NULL, a buffer whose sanitising loop - evaluated abstractly over all 256 byte values - "
     "leaves no '/', the tail after the last '/', or is handed to split_header_filename on every successful path; only the listed normalisers write name/path bytes; the separator loops visit every "
     "byte and the path header always ends in a separator; every header returned with a non-NULL path passed through collapse_path(header->path) and nothing that can write the path field or path bytes "
-    "runs afterwards; headers are created only in lha_file_header_read. NOT decided, stated plainly: the in-place state machine inside collapse_path - a change confined to its body is not detected.",
+    "runs afterwards; headers are created only in lha_file_header_read; and collapse_path itself is checked against the component transducer (E9 SCAN): every path through one iteration of its "
+    "loop is a copy, accept, drop or pop move on (component start, write cursor), an accept only under branch facts that exclude the empty, '.' and '..' component, a pop only to the start of the string or "
+    "to a position just after a '/', nothing but the copied byte and the final NUL is stored - which gives, for every input string, the invariant that only real names precede each '/'. "
+    "Not decided: a sanitiser rewritten over indices or with another algorithm is reported as not recognised, not analysed.",
     "Trusted: clang 14 front end; LLVM sroa/early-cse; irx; bytemap.py and the fact engine; strrchr/strdup semantics; assumption A-tolower (tolower cannot introduce '/').",
-    "static analysis: value-provenance rules, byte-map loop evaluation over the 256-value domain, cut-set (sanitiser-last) and call-graph mod-set rules on LLVM IR (custom checker)", "DESIGN.md §3 C11")
+    "static analysis: value-provenance rules, byte-map loop evaluation over the 256-value domain, cut-set (sanitiser-last) and call-graph mod-set rules, per-iteration path conformance of the in-place filter with the component transducer (E9 SCAN) on LLVM IR (custom checker)", "DESIGN.md §3 C11, §2 E9")
 
 CLAIMED["C13"] = ("other",
     "Static termination classification of every natural loop of lib/ and src/ (claimed in part): counted induction with an invariant bound (also through nested loops and linear expressions of the "
-    "induction variable), strictly decreasing remainder with 0 < step <= value, input-driven loops that leave on the exhausted outcome of a read-like call, terminated-string / sentinel-array scans, "
+    "induction variable, and strict increase through inner loops that must run at least once), strictly decreasing remainder with 0 < step <= value, input-driven loops that leave on the exhausted outcome of a read-like call "
+    "whose non-exhausted outcome is shown to consume input (I/O-level contracts, or derived: every such return of the callee lies behind a successful read_bits(n >= 1)), terminated-string / sentinel-array scans, "
     "list walks; six listed exceptions with reasons and support rules; recursion confined to match_glob and the depth-2 MacBinary pass-through; allocation sizes in lib/ are linear forms over admissible "
     "symbols with the 1 MiB ceiling an available fact at the header reallocation, decoder state size summed over all decoder types (<= 4 MiB); sticky flags; 256 KiB bound of the self-extractor scan. "
     "This found the hang of the read-based skip fallback at end of input (fixed in repo commit eaeb14e); the suite has a single truncated archive read through a seekable file, so a hang could only show as a runner timeout. "
